@@ -140,17 +140,19 @@ def callSpl (c : Call) (st : St) : List String :=
       -- validate afterwards (set_slope_exp refuses a non-linear exponent on a multiple-direction
       -- graph but keeps the value); after a refused call nothing is eroded
       let sets := c.toks.filter (fun t => t.startsWith "set:")
-      let (mE, nE, outs, rej) := sets.zipIdx.foldl (fun (acc : F × F × List String × Bool) ti =>
-        let (mA, nA, o, rj) := acc
+      let (mE, nE, kE, outs, rej) := sets.zipIdx.foldl (fun (acc : F × F × Option F × List String × Bool) ti =>
+        let (mA, nA, kA, o, rj) := acc
         let (t, i) := ti
         match t.splitOn ":" with
         | [_, "n", v] =>
           let v := hexF v
           let lin := Fs.Spl.isLinear S Fs.Gen.splLinearForm eps v
-          if !lin && !isSingle then (mA, v, o ++ ["O splset" ++ toString i ++ " err invalid_argument"], true)
-          else (mA, v, o ++ ["O splset" ++ toString i ++ " ok"], rj)
-        | [_, "m", v] => (hexF v, nA, o ++ ["O splset" ++ toString i ++ " ok"], rj)
-        | _ => (mA, nA, o ++ ["O model-bad-setter"], rj)) (m, nn, [], false)
+          if !lin && !isSingle then (mA, v, kA, o ++ ["O splset" ++ toString i ++ " err invalid_argument"], true)
+          else (mA, v, kA, o ++ ["O splset" ++ toString i ++ " ok"], rj)
+        | [_, "m", v] => (hexF v, nA, kA, o ++ ["O splset" ++ toString i ++ " ok"], rj)
+        | [_, "k", v] => (mA, nA, some (hexF v), o ++ ["O splset" ++ toString i ++ " ok"], rj)
+        | _ => (mA, nA, kA, o ++ ["O model-bad-setter"], rj)) (m, nn, none, [], false)
+      let kcoef : Nat → F := match kE with | some v => fun _ => v | none => kcoef
       let effLine := if sets.isEmpty then [] else [line "spl_eff" (joinF [mE, nE])]
       if rej then ["O spl_new 1"] ++ outs ++ effLine
       else
